@@ -125,6 +125,7 @@ func (Engine) Run(ctx *hk.RunCtx) error {
 	}
 	switch mode {
 	case "equiv":
+		checkDimFns(ctx)
 		ctx.Res.Rule = "generated (P, leaders, followers per partition, 1-3 table schemas with partitionBy, points, forced flushes) + generated SQL queries; distinct by (seed, index, configuration); non-trivial = at least 10 points over at least 2 partitions"
 		return forEachCase(ctx, off, workers, func(idx uint64) (bool, error) {
 			nq := 20
